@@ -64,11 +64,19 @@ type ssCC struct {
 	pubCalls  int64
 	maxPoolWB int32
 	slowNew   int32 // 1: NewSubConn takes 30ms (slow connection factory)
+	// signalled (non-blocking) when a slow NewSubConn call has started
+	enteredNew chan struct{}
 }
 
 func (c *ssCC) NewSubConn(a []resolver.Address, o balancer.NewSubConnOptions) (balancer.SubConn, error) {
 	atomic.AddInt64(&c.newCalls, 1)
 	if atomic.LoadInt32(&c.slowNew) == 1 {
+		if c.enteredNew != nil {
+			select {
+			case c.enteredNew <- struct{}{}:
+			default:
+			}
+		}
 		time.Sleep(30 * time.Millisecond)
 	}
 	if len(a) == 0 {
@@ -615,6 +623,8 @@ func ssDispatch(out *vOut, env vEnv, cfgs []ssCfg, rng *vRand, idx int64) {
 		ssRoundRobinExact(out, rng, idx)
 	case "C07":
 		ssOneReplacement(out, rng, idx)
+	case "C20":
+		ssUpdateDuringRefreshCreate(out, rng, idx)
 	case "C03":
 		switch idx % 3 {
 		case 0:
@@ -1146,6 +1156,89 @@ func ssSlowFactoryGrow(out *vOut, rng *vRand, idx int64) {
 	out.sample(map[string]interface{}{"case": idx, "summary": log[0]})
 	if pool > max {
 		out.violation(vViol{Sig: "C03.slow-factory-grow", Rule: "C03.slow-factory-grow", Detail: fmt.Sprintf("%d concurrent saturated picks on different pickers grew the pool to %d channels while the connection factory was slow, maxSize is %d", len(pickers), pool, max), Case: idx, Log: log})
+	}
+}
+
+// ssUpdateDuringRefreshCreate: a resolver update with a new address list arrives
+// while the replacement connection of a refresh is being created by a slow
+// connection factory. Whatever the interleaving, the replacement must carry the
+// latest list when it takes over its channel.
+func ssUpdateDuringRefreshCreate(out *vOut, rng *vRand, idx int64) {
+	verifClockOn = false
+	n := 1 + rng.Intn(3)
+	cp := &pb.ChannelPoolConfig{MinSize: uint32(n), MaxSize: uint32(n), MaxConcurrentStreamsLowWatermark: 1000, UnresponsiveCalls: 1, UnresponsiveDetectionMs: 1}
+	cc := &ssCC{enteredNew: make(chan struct{}, 1)}
+	b := newBuilder().Build(cc, balancer.BuildOptions{}).(*gcpBalancer)
+	api := &GCPBalancerConfig{ApiConfig: &pb.ApiConfig{ChannelPool: cp, Method: ssMethods()}}
+	b.UpdateClientConnState(balancer.ClientConnState{ResolverState: resolver.State{Addresses: []resolver.Address{{Addr: "v1"}}}, BalancerConfig: api})
+	for _, c := range cc.snapshotConns() {
+		b.UpdateSubConnState(c, balancer.SubConnState{ConnectivityState: connectivity.Connecting})
+		b.UpdateSubConnState(c, balancer.SubConnState{ConnectivityState: connectivity.Ready})
+	}
+	p := cc.picker(rng, 0, nil)
+	if p == nil || len(cc.snapshotConns()) != n {
+		out.inconclusive("update-during-refresh: pool not built")
+		return
+	}
+	dctx, cancel := context.WithDeadline(context.Background(), time.Now().Add(-time.Second))
+	defer cancel()
+	pr, err := p.Pick(balancer.PickInfo{FullMethodName: "/v/plain", Ctx: &ssCtx{Context: dctx}})
+	if err != nil {
+		out.inconclusive("update-during-refresh: pick failed")
+		return
+	}
+	old := pr.SubConn.(*ssConn)
+	time.Sleep(10 * time.Millisecond) // > the 1ms window since the last response (real clock in this engine)
+	before := len(cc.snapshotConns())
+	atomic.StoreInt32(&cc.slowNew, 1)
+	doneA := make(chan struct{})
+	go func() {
+		defer close(doneA)
+		pr.Done(balancer.DoneInfo{Err: ssDeadlineErr}) // -> refresh -> slow NewSubConn
+	}()
+	select {
+	case <-cc.enteredNew:
+	case <-doneA:
+	case <-time.After(20 * time.Second):
+	}
+	// the resolver update arrives while the replacement is being created
+	doneB := make(chan struct{})
+	go func() {
+		defer close(doneB)
+		b.UpdateClientConnState(balancer.ClientConnState{ResolverState: resolver.State{Addresses: []resolver.Address{{Addr: "v2"}}}, BalancerConfig: api})
+	}()
+	for _, ch := range []chan struct{}{doneA, doneB} {
+		select {
+		case <-ch:
+		case <-time.After(60 * time.Second):
+			out.inconclusive("batch stopped early: completion or resolver update did not return")
+			return
+		}
+	}
+	atomic.StoreInt32(&cc.slowNew, 0)
+	conns := cc.snapshotConns()
+	if len(conns) != before+1 {
+		out.hit("C20.stress-refresh-not-triggered")
+		return
+	}
+	repl := conns[len(conns)-1]
+	b.UpdateSubConnState(repl, balancer.SubConnState{ConnectivityState: connectivity.Connecting})
+	b.UpdateSubConnState(repl, balancer.SubConnState{ConnectivityState: connectivity.Ready})
+	b.mu.RLock()
+	_, tookOver := b.scRefs[repl]
+	b.mu.RUnlock()
+	addr, _ := repl.addrs.Load().(string)
+	out.hit("C20.stress-update-during-refresh-create")
+	log := []string{fmt.Sprintf("update-during-refresh-create channels=%d: refresh of %v started with [v1], NewSubConn takes 30ms, resolver update [v2] delivered meanwhile; replacement %v has [%s], took over=%v", n, old, repl, addr, tookOver)}
+	out.nontrivial(vHashStrings([]string{"upd-refresh", fmt.Sprint(n)}))
+	out.sample(map[string]interface{}{"case": idx, "summary": log[0]})
+	if tookOver && addr != "v2" {
+		out.violation(vViol{Sig: "C20.stress-replacement-addr", Rule: "C20.stress-replacement-addr", Detail: fmt.Sprintf("a resolver update [v2] arrived while the replacement of a refresh was being created: the replacement took over its channel with addresses [%s]", addr), Case: idx, Log: log})
+	}
+	for _, c := range conns[:before] {
+		if a, _ := c.addrs.Load().(string); a != "v2" && c != old {
+			out.violation(vViol{Sig: "C20.stress-pool-addr", Rule: "C20.stress-pool-addr", Detail: fmt.Sprintf("pool connection %v still has [%s] after the resolver update [v2]", c, a), Case: idx, Log: log})
+		}
 	}
 }
 
